@@ -168,6 +168,7 @@ theorem boxHeap_collect :
     rw [hown]
     simp only [List.foldl_cons, List.foldl_nil]
     apply remPtr_registered
+    · decide
     · simp [strike]
     · exact hl
   · rw [collectAll_pending, hP]; simp
@@ -292,6 +293,27 @@ theorem staleOps_ok : ∀ op ∈ staleOps, op.ok := by
   intro op hop
   simp only [staleOps, List.mem_cons, List.not_mem_nil, or_false] at hop
   rcases hop with h | h | h | h | h <;> subst h <;> simp [GOp.ok, HOp.ok]
+
+/-- 4096 ↦ a Thread object that is not `current(Thread)` (`new(Thread, f)`, not started) whose table holds, under one key, a Ref
+    to the Probe at 4160 (`set(t, key, probe)`); nothing else refers to the Probe -/
+def threadHeap : Heap where
+  lookup a :=
+    if a = 4096 then some ⟨.thr "Thread" (.cont "Table" [.raw "String" [0], .raw "Ref" [4160]]), false⟩
+    else if a = 4160 then some ⟨.raw "Probe" [7], false⟩
+    else none
+  regs := [4096, 4160]
+  minptr := 4096
+  maxptr := 4160
+  complete := by
+    intro a e he
+    by_cases h1 : a = 4096; · simp [h1]
+    by_cases h2 : a = 4160; · simp [h2]
+    simp [h1, h2] at he
+
+theorem threadHeap_wf : threadHeap.WF := by
+  constructor <;> intro a e he <;> simp only [threadHeap] at he ⊢ <;>
+    (repeat' split at he) <;> first | (cases he) | (subst_vars; decide) | skip
+  all_goals simp_all
 
 /-- an in-contract Box: 4096 ↦ root-registered Ref → 4160 ↦ Box → 4224 ↦ Probe (owned by the Box only); 4288 ↦ garbage -/
 def okBoxHeap : Heap where
